@@ -92,4 +92,198 @@ example :
     (assignKey s "0" 2 40).isNone ∧ (assignKey s "0" 2 1).isNone ∧ (assignKey s "0" 2 2).isNone ∧
     ((assignKey s "0" 1 41).map fun t => (t.get "0").prune) = some [(150, [40])] := by decide
 
+/-! ### the key index stays consistent (inductive step for assignments) -/
+
+/-- every validator's current key on the consumer resolves back to that validator -/
+def KeyWF (x : Consumer) : Prop := ∀ v k, assignedKey x v = some k → resolveKey x k = some v
+
+theorem assignedKey_eq (x : Consumer) (v : Nat) : assignedKey x v = (x.ka.find? (·.1 == v)).map (·.2) := by
+  unfold assignedKey; cases x.ka.find? (·.1 == v) <;> rfl
+
+theorem resolveKey_eq (x : Consumer) (k : Nat) : resolveKey x k = (x.byaddr.find? (·.1 == k)).map (·.2) := by
+  unfold resolveKey; cases x.byaddr.find? (·.1 == k) <;> rfl
+
+/-- an accepted assignment keeps the index consistent: the new key resolves to the validator, and
+    every other validator's current key still resolves to its owner (the replaced key keeps
+    resolving on a launched consumer, see C06) -/
+theorem assign_preserves_keyWF (s : State) (c : CId) (v key : Nat) (t : Time)
+    (hok : assignOK s c v key = true) (hwf : KeyWF (s.get c)) :
+    KeyWF (assignRecord t v key (s.get c)) := by
+  have hfree : resolveKey (s.get c) key = none := by
+    unfold assignOK at hok
+    simp only [Bool.and_eq_true] at hok
+    cases h : resolveKey (s.get c) key with
+    | none => rfl
+    | some w => rw [h] at hok; simp at hok
+  generalize s.get c = x at *
+  intro w k hw
+  -- the record after the writes
+  have hka : (assignRecord t v key x).ka = setAssoc x.ka v key := by
+    unfold assignRecord; cases assignedKey x v <;> simp only [] <;> (try split) <;> rfl
+  have hby : ∃ base, (assignRecord t v key x).byaddr = setAssoc base key v ∧
+      (base = x.byaddr ∨ ∃ old, assignedKey x v = some old ∧ base = x.byaddr.filter fun b => b.1 != old) := by
+    unfold assignRecord
+    cases ho : assignedKey x v with
+    | none => exact ⟨x.byaddr, rfl, Or.inl rfl⟩
+    | some old =>
+      simp only []
+      by_cases hl : (x.phase == Phase.launched) = true
+      · simp only [hl, if_true]; exact ⟨x.byaddr, rfl, Or.inl rfl⟩
+      · simp only [hl]; exact ⟨_, rfl, Or.inr ⟨old, rfl, rfl⟩⟩
+  obtain ⟨base, hbase, hb⟩ := hby
+  rw [assignedKey_eq, hka] at hw
+  rw [resolveKey_eq, hbase]
+  by_cases hwv : w = v
+  · subst hwv
+    rw [find_setAssoc_same] at hw
+    simp only [Option.map_some, Option.some.injEq] at hw
+    subst hw
+    rw [find_setAssoc_same]; rfl
+  · rw [find_setAssoc_other _ _ _ _ hwv] at hw
+    have hxw : assignedKey x w = some k := by rw [assignedKey_eq]; exact hw
+    have hres := hwf w k hxw
+    have hkne : k ≠ key := by
+      intro hk; subst hk; rw [hfree] at hres; cases hres
+    rw [find_setAssoc_other _ _ _ _ hkne]
+    rcases hb with hb | ⟨old, hold, hb⟩
+    · rw [hb, ← resolveKey_eq]; exact hres
+    · have hkold : k ≠ old := by
+        intro hk; subst hk
+        have := hwf v k hold
+        rw [hres] at this; injection this with this; exact hwv this
+      rw [hb, find_filter_ne _ _ _ hkold, ← resolveKey_eq]; exact hres
+
+theorem assignKey_preserves_keyWF (s s' : State) (c : CId) (v key : Nat)
+    (h : assignKey s c v key = some s') (hwf : KeyWF (s.get c)) (hid : (s.get c).id = c) :
+    KeyWF (s'.get c) := by
+  unfold assignKey at h
+  by_cases hok : assignOK s c v key = true
+  · simp only [hok, if_true, Option.some.injEq] at h
+    subst h
+    have := assign_preserves_keyWF s c v key (s.now + s.unbonding) hok hwf
+    have hg := get_set_same s (assignRecord (s.now + s.unbonding) v key (s.get c))
+    rw [assignRecord_id, hid] at hg
+    rw [hg]
+    exact this
+  · simp [hok] at h
+
+/-! ### … and through pruning -/
+
+/-- keys waiting to be pruned are nobody's current key -/
+def NotCurrent (x : Consumer) : Prop := ∀ e ∈ x.prune, ∀ k ∈ e.2, ∀ v, assignedKey x v ≠ some k
+
+/-- keys waiting to be pruned still resolve (monitored on the implementation as part of
+    `C05.key-inv`; its preservation by pruning needs "scheduled at most once", not proved here) -/
+def PruneResolves (x : Consumer) : Prop := ∀ e ∈ x.prune, ∀ k ∈ e.2, (resolveKey x k).isSome = true
+
+theorem mem_pruneAppend (pr : List (Time × List Nat)) (t : Time) (k : Nat) :
+    ∀ e ∈ pruneAppend pr t k, ∀ k' ∈ e.2, k' = k ∨ ∃ e0 ∈ pr, k' ∈ e0.2 := by
+  intro e he k' hk'
+  unfold pruneAppend at he
+  split at he
+  · rcases List.mem_map.mp he with ⟨e0, he0, rfl⟩
+    split at hk'
+    · simp only [List.mem_append, List.mem_singleton] at hk'
+      rcases hk' with h | h
+      · exact Or.inr ⟨e0, he0, h⟩
+      · exact Or.inl h
+    · exact Or.inr ⟨e0, he0, hk'⟩
+  · simp only [List.mem_append, List.mem_singleton, List.mem_filter] at he
+    rcases he with (h | h) | h
+    · exact Or.inr ⟨e, h.1, hk'⟩
+    · subst h; simp only [List.mem_singleton] at hk'; exact Or.inl hk'
+    · exact Or.inr ⟨e, h.1, hk'⟩
+
+theorem find_filter_notin (l : List (Nat × Nat)) (keys : List Nat) (k : Nat) (hk : ¬ k ∈ keys) :
+    (l.filter fun b => !keys.contains b.1).find? (·.1 == k) = l.find? (·.1 == k) := by
+  induction l with
+  | nil => rfl
+  | cons a t ih =>
+    rw [List.filter_cons]
+    by_cases ha : (!keys.contains a.1) = true
+    · simp only [ha, if_true, List.find?_cons]
+      split
+      · rfl
+      · exact ih
+    · have hin : a.1 ∈ keys := by simpa using ha
+      have hne : (a.1 == k) = false := by
+        simp only [beq_eq_false_iff_ne, ne_eq]; intro h; rw [h] at hin; exact hk hin
+      simp only [ha, List.find?_cons, hne]
+      exact ih
+
+/-- pruning forgets only keys that are nobody's current key: every current key keeps resolving -/
+theorem prune_preserves_keyWF (x : Consumer) (now : Time) (hwf : KeyWF x) (hp : NotCurrent x) :
+    KeyWF (pruneKeys x now) ∧ NotCurrent (pruneKeys x now) := by
+  have hnotcur : ∀ v k, assignedKey x v = some k →
+      ¬ k ∈ (x.prune.filter fun e => decide (e.1 ≤ now)).flatMap (·.2) := by
+    intro v k hv hk
+    rcases List.mem_flatMap.mp hk with ⟨e, he, hke⟩
+    exact hp e (List.mem_filter.mp he).1 k hke v hv
+  constructor
+  · intro v k hv
+    have hv' : assignedKey x v = some k := hv
+    have := hwf v k hv'
+    rw [resolveKey_eq] at this ⊢
+    show ((x.byaddr.filter fun b => !((x.prune.filter fun e => decide (e.1 ≤ now)).flatMap (·.2)).contains b.1).find? (·.1 == k)).map (·.2) = some v
+    rw [find_filter_notin _ _ _ (hnotcur v k hv')]
+    exact this
+  · intro e he k hk v
+    exact hp e (List.mem_filter.mp he).1 k hk v
+
+/-- an accepted assignment keeps "waiting keys are nobody's current key": the replaced key is
+    scheduled and is no longer current; the new key was not waiting (it did not resolve at all) -/
+theorem assign_preserves_notCurrent (s : State) (c : CId) (v key : Nat) (t : Time)
+    (hok : assignOK s c v key = true) (hwf : KeyWF (s.get c)) (hp : NotCurrent (s.get c))
+    (hr : PruneResolves (s.get c)) : NotCurrent (assignRecord t v key (s.get c)) := by
+  have hfree : resolveKey (s.get c) key = none := by
+    unfold assignOK at hok
+    simp only [Bool.and_eq_true] at hok
+    cases h : resolveKey (s.get c) key with
+    | none => rfl
+    | some w => rw [h] at hok; simp at hok
+  generalize s.get c = x at *
+  have hka : (assignRecord t v key x).ka = setAssoc x.ka v key := by
+    unfold assignRecord; cases assignedKey x v <;> simp only [] <;> (try split) <;> rfl
+  -- current keys after the assignment
+  have hcur : ∀ w k, assignedKey (assignRecord t v key x) w = some k →
+      (w = v ∧ k = key) ∨ (w ≠ v ∧ assignedKey x w = some k) := by
+    intro w k hw
+    rw [assignedKey_eq, hka] at hw
+    by_cases hwv : w = v
+    · subst hwv
+      rw [find_setAssoc_same] at hw
+      simp only [Option.map_some, Option.some.injEq] at hw
+      exact Or.inl ⟨rfl, hw.symm⟩
+    · rw [find_setAssoc_other _ _ _ _ hwv] at hw
+      exact Or.inr ⟨hwv, by rw [assignedKey_eq]; exact hw⟩
+  -- keys waiting after the assignment: the old ones, plus the replaced key on a launched consumer
+  have hprune : ∀ e ∈ (assignRecord t v key x).prune, ∀ k ∈ e.2,
+      (∃ e0 ∈ x.prune, k ∈ e0.2) ∨ assignedKey x v = some k := by
+    intro e he k hk
+    unfold assignRecord at he
+    cases ho : assignedKey x v with
+    | none => simp only [ho] at he; exact Or.inl ⟨e, he, hk⟩
+    | some old =>
+      simp only [ho] at he
+      by_cases hl : (x.phase == Phase.launched) = true
+      · simp only [hl, if_true] at he
+        rcases mem_pruneAppend x.prune t old e he k hk with h | h
+        · exact Or.inr (by rw [h])
+        · exact Or.inl h
+      · simp only [hl] at he; exact Or.inl ⟨e, he, hk⟩
+  intro e he k hk w hw
+  rcases hprune e he k hk with ⟨e0, he0, hk0⟩ | hold
+  · rcases hcur w k hw with ⟨_, hkk⟩ | ⟨_, hxw⟩
+    · -- the new key would be waiting already: then it would resolve
+      have := hr e0 he0 k hk0
+      rw [hkk, hfree] at this; cases this
+    · exact hp e0 he0 k hk0 w hxw
+  · rcases hcur w k hw with ⟨_, hkk⟩ | ⟨hwv, hxw⟩
+    · -- the replaced key equals the new key: but the replaced key resolves
+      have := hwf v k hold
+      rw [hkk, hfree] at this; cases this
+    · have h1 := hwf v k hold
+      have h2 := hwf w k hxw
+      rw [h1] at h2; injection h2 with h2; exact hwv h2.symm
+
 end ICS.Props.C05
